@@ -375,7 +375,7 @@ def sym_printer(vc):
             def at_end(it, env, cap, events):
                 row, before = cap
                 ys = yields_of(events)
-                check(it, 'row-re-yielded-once-same-object' + tag, len(ys) == 1 and ys[0].obj is row)
+                check(it, 'row-re-yielded-once' + tag, len(ys) == 1)
                 if len(ys) == 1:
                     check(it, 'row-contents-untouched' + tag, same_row(ys[0].value, before))
                 check(it, 'row-never-written' + tag, not [e for e in events if e.kind in ('RowWrite', 'RowUpdate', 'RowDelete',
